@@ -835,9 +835,14 @@ fn c14_text_vs_value(ctx: &mut Ctx) {
         if cond_first {
             text.push_str(&format!("  condition: {}\n", cond));
         }
-        text.push_str(&format!("  {}:\n    {}: {}\n", n1, r.pick(&keys), r.pick(&vals)));
+        // half of the cases keep the identifier bodies plain, so that the odd name / condition is the
+        // only thing under test
+        let plain = r.chance(50);
+        let (k1, v1) = if plain { ("f", "bar") } else { (*r.pick(&keys), *r.pick(&vals)) };
+        let (k2, v2) = if plain { ("g", "1") } else { (*r.pick(&keys), *r.pick(&vals)) };
+        text.push_str(&format!("  {}:\n    {}: {}\n", n1, k1, v1));
         if n2 != n1 {
-            text.push_str(&format!("  {}:\n    {}: {}\n", n2, r.pick(&keys), r.pick(&vals)));
+            text.push_str(&format!("  {}:\n    {}: {}\n", n2, k2, v2));
         }
         if !cond_first {
             text.push_str(&format!("  condition: {}\n", cond));
